@@ -15,9 +15,9 @@ MUTANTS = [
  ('classify-crossed', 'classify', 'cluster.rs', '} else if is_word_converted && is_word(c) {', '} else if is_word_converted && is_space(c) {', 'fail', 'classify.precedence'),
  ('classify-precedence-swapped', 'classify', 'cluster.rs', 'if is_digit_converted && is_digit(c) {\n                                "\\\\d".to_string()\n                            } else if is_word_converted && is_word(c) {\n                                "\\\\w".to_string()', 'if is_word_converted && is_word(c) {\n                                "\\\\w".to_string()\n                            } else if is_digit_converted && is_digit(c) {\n                                "\\\\d".to_string()', 'fail', 'classify.precedence'),
  ('table-off-by-one', 'tables', 'unicode_tables/word.rs', "('a', 'z'),", "('a', 'y'),", 'fail', 'tables.word'),
- ('caseconv-unconditional', 'misc', 'regexp.rs', 'if lower_test_case.chars().count() == it.chars().count() {', 'if lower_test_case.chars().count() >= 0 {', 'fail', 'caseconv.'),
- ('anchor-flag-crossed', 'misc', 'regexp.rs', 'let caret = if self.config.is_start_anchor_disabled {', 'let caret = if self.config.is_end_anchor_disabled {', 'fail', 'display.caret'),
- ('rep-filter-nonstrict', 'misc', 'cluster.rs', 'count > config.minimum_repetitions', 'count >= config.minimum_repetitions', 'fail', 'rep_filter.strict'),
+ ('caseconv-unconditional', 'caseconv', 'regexp.rs', 'if lower_test_case.chars().count() == it.chars().count() {', 'if lower_test_case.chars().count() >= 0 {', 'fail', 'caseconv.'),
+ ('anchor-flag-crossed', 'render', 'regexp.rs', 'let caret = if self.config.is_start_anchor_disabled {', 'let caret = if self.config.is_end_anchor_disabled {', 'fail', 'display.caret'),
+ ('rep-filter-nonstrict', 'rep', 'cluster.rs', 'count > config.minimum_repetitions', 'count >= config.minimum_repetitions', 'fail', 'rep_filter.strict'),
  ('recreate-no-second-mark', 'dfa', 'dfa.rs', 'if self.final_state_indices.contains(&old_target_state.index()) {\n                    final_state_indices.insert(new_target_state.index());\n                }', '', 'fail', 'recreate'),
  ('recreate-edge-swapped', 'dfa', 'dfa.rs', 'graph.add_edge(*new_source_state, *new_target_state, grapheme.clone());', 'graph.add_edge(*new_target_state, *new_source_state, grapheme.clone());', 'fail', 'recreate'),
  ('insert-no-final', 'trie', 'dfa.rs', 'self.final_state_indices.insert(current_state.index());\n    }', 'let _ = current_state.index();\n    }', 'fail', 'insert'),
@@ -34,6 +34,13 @@ MUTANTS = [
  ('pipeline-sort-before-lowercase', 'regexp', 'regexp.rs', '        if config.is_case_insensitive_matching {\n            Self::convert_for_case_insensitive_matching(test_cases);\n        }\n        Self::sort(test_cases);', '        Self::sort(test_cases);\n        if config.is_case_insensitive_matching {\n            Self::convert_for_case_insensitive_matching(test_cases);\n        }', 'fail', 'pipeline.input_prepared'),
  ('pipeline-fallback-drops-cluster', 'regexp', 'regexp.rs', '                        exprs.push(literal);', '                        if exprs.len() < 3 { exprs.push(literal); }', 'fail', 'pipeline.'),
  ('pipeline-ast-from-other-clusters', 'regexp', 'regexp.rs', 'let mut dfa = Dfa::from(&grapheme_clusters, true, config);', 'let mut dfa = Dfa::from(&grapheme_clusters[1..], true, config);', 'fail', ''),
+ ('render-ixflag-loses-i', 'render', 'component.rs', 'Component::IgnoreCaseAndVerboseModeFlag => "(?ix)\\n".to_string(),', 'Component::IgnoreCaseAndVerboseModeFlag => "(?x)\\n".to_string(),', 'fail', 'render.component_plain'),
+ ('render-colored-ixflag-loses-i', 'render', 'component.rs', 'format!("{}\\n", Self::bright_yellow_on_black("(?ix)", is_escaped))', 'format!("{}\\n", Self::bright_yellow_on_black("(?x)", is_escaped))', 'fail', 'render.colored_adds_only_colour'),
+ ('render-colour-changed-benign', 'render', 'component.rs', 'Self::color_code("1;32", value, is_escaped)', 'Self::color_code("1;34", value, is_escaped)', 'pass', ''),
+ ('render-uncaptured-group-captures', 'render', 'component.rs', 'Component::UncapturedLeftParenthesis => "(?:".to_string(),', 'Component::UncapturedLeftParenthesis => "(".to_string(),', 'fail', 'render.'),
+ ('render-repetition-range-swapped', 'render', 'component.rs', 'format!("{{{},{}}}", min, max)', 'format!("{{{},{}}}", max, min)', 'fail', 'render.component_plain'),
+ ('display-outer-group-kind', 'render', 'regexp.rs', '                    if self.config.is_capturing_group_enabled {\n                        Component::CapturedParenthesizedExpression(\n                            self.ast.to_string(),', '                    if !self.config.is_capturing_group_enabled {\n                        Component::CapturedParenthesizedExpression(\n                            self.ast.to_string(),', 'fail', 'display.assemble'),
+ ('display-dollar-before-body', 'render', 'regexp.rs', 'format!("{}{}{}{}", flag, caret, self.ast, dollar_sign)', 'format!("{}{}{}{}", flag, caret, dollar_sign, self.ast)', 'fail', 'display.assemble'),
  ('wasm-wrong-field', 'wasm', 'wasm.rs', 'self.builder.config.is_start_anchor_disabled = true;\n        self.clone()', 'self.builder.config.is_end_anchor_disabled = true;\n        self.clone()', 'fail', 'wasm.withoutStartAnchor'),
 ]
 def run(repo, only=None, units=None):
